@@ -1,5 +1,475 @@
-import IprModel.Outcome
-import IprModel.Seq
+import IprProofs.Seq
+import IprProofs.Outcome
+/-!
+# C14 — missing or out-of-range data raises a logic error, never undefined behaviour  (PARTIAL in the last conjunct)
+
+Two models, both executed by `IprDriver/C14.lean` and compared with the real library by `check.py C14`:
+
+* `IprModel/Seq.lean` — `ipr::Sequence<T>` (size / get / the iterator loops) and its implementations.  Part A states the
+  bounds and iteration laws ONCE, for any `View` that is positional access into a list of *slots* (`View.Meets`: a slot is
+  `some x`, an element, or `none`, a place made by the sizing constructor / `resize` / `push_back(nullptr)` and never
+  filled), and then shows, for every implementation and EVERY slot list / member list, that its view is of that form.
+* `IprModel/Outcome.lean` — what each interface accessor answers on a partially built node.  Part B is about every
+  history of link assignments from the state the factory returns (`State.initial`, `State.run`); Part C lifts the
+  hygiene of the hand-written table `kinds` (kernel evaluation over the whole table — these ARE finite facts) to every
+  kind, every accessor row and every history by the general lemmas of Part B.
+
+What is NOT a theorem (and cannot be: Lean functions are total): that the C++ never runs into undefined behaviour.
+The theorems fix WHICH outcome is required in which state; that nothing else happens is observed by ASan+UBSan
+(`-fno-sanitize-recover=all`) on the states and index ranges the check sweeps.  Which accessor reads which link is the
+content of the table, tied to the code by that sweep, not proved.
+-/
+namespace Ipr.Seq
+variable {α τ : Type}
+
+/-! ## Part A — sequences
+
+### A.1 laws of any implementation that is positional access into a slot list -/
+
+/-- `get(i)` is refused (an exception derived from `std::logic_error`) exactly when `i ≥ size()` or slot `i` was never filled. -/
+theorem C14_get_refused_iff (v : View α) (slots : List (Option α)) (hv : v.Meets slots) (i : Nat) :
+    failed (v.get i) = true ↔ v.size ≤ i ∨ slots[i]? = some none := by
+  rw [hv.get_eq, hv.size_eq]; exact slotGet_failed_iff slots i
+
+/-- … and it returns `x` exactly when slot `i` holds `x`: within bounds, the `i`-th element. -/
+theorem C14_get_ok_iff (v : View α) (slots : List (Option α)) (hv : v.Meets slots) (i : Nat) (x : α) :
+    v.get i = .ok x ↔ slots[i]? = some (some x) := by
+  rw [hv.get_eq]; exact slotGet_ok_iff slots i x
+
+/-- A sequence all of whose places hold an element (every implementation but a pre-sized `ref_sequence`): `get(i)` is the
+    `i`-th member for `i < size()`, and is refused iff `i ≥ size()`. -/
+theorem C14_get_filled (v : View α) (xs : List α) (hv : v.Meets (xs.map some)) (i : Nat) :
+    (∀ h : i < xs.length, v.get i = .ok xs[i]) ∧ (failed (v.get i) = true ↔ v.size ≤ i) := by
+  constructor
+  · intro h
+    rw [hv.get_eq, slotGet_map_some, List.getElem?_eq_getElem h]
+  · rw [C14_get_refused_iff v _ hv i]
+    constructor
+    · rintro (h | h)
+      · exact h
+      · simp only [List.getElem?_map] at h
+        cases hx : xs[i]? <;> simp [hx] at h
+    · exact Or.inl
+
+/-- `empty() ↔ size() = 0` (any implementation: `empty` is defined in the base class). -/
+theorem C14_empty_iff (v : View α) : v.empty = true ↔ v.size = 0 := View.empty_iff v
+
+/-- Forward iteration `for (it = begin(); it != end(); ++it)` visits exactly `size()` elements, the `i`-th visit being
+    `*position(i) = get(i)` — whatever `get` answers there, a refusal included.  (Any implementation: the iterator is the
+    base class's pair (sequence, index).) -/
+theorem C14_forward_visits (v : View α) :
+    v.forward.length = v.size ∧ ∀ i, i < v.size → v.forward[i]? = some (v.deref (v.position i)) :=
+  ⟨View.forward_length v, fun i h => View.forward_getElem? v i h⟩
+
+/-- Backward iteration `it = end(); while (it != begin()) { --it; … }` is the reverse of forward iteration. -/
+theorem C14_backward_reverse (v : View α) :
+    v.backward = v.forward.reverse ∧ v.backward.length = v.size ∧
+      ∀ i, i < v.size → v.backward[i]? = some (v.get (v.size - 1 - i)) :=
+  ⟨View.backward_eq v, View.backward_length v, fun i h => View.backward_getElem? v i h⟩
+
+/-- Both loops started in the middle (`position(i)`, `i ≤ size()`): the forward one visits `get i … get (size-1)`, the
+    backward one `get (i-1) … get 0`. -/
+theorem C14_iteration_from (v : View α) (i : Nat) (h : i ≤ v.size) :
+    v.forwardFrom i h = (List.range' i (v.size - i)).map v.get ∧ v.backwardFrom i = ((List.range i).map v.get).reverse :=
+  ⟨View.forwardFrom_eq v (v.size - i) i h rfl, View.backwardFrom_eq v i⟩
+
+/-- Iterator arithmetic is `std::size_t` arithmetic; below `SIZE_MAX` (sizes of real containers are far below) `++` and
+    `--` do not wrap, so the loops above are the loops the C++ runs. -/
+theorem C14_iterator_no_wrap (i : Nat) (h : i < sizeMax) :
+    View.succ i = i + 1 ∧ View.pred (i + 1) = i ∧ View.pred (View.succ i) = i := by
+  have h1 : View.succ i = i + 1 := by unfold View.succ; simp; omega
+  have h2 : View.pred (i + 1) = i := by unfold View.pred; simp
+  exact ⟨h1, h2, by rw [h1, h2]⟩
+
+/-- Dereferencing `end()`, `--begin()` (index `SIZE_MAX`) or `position(SIZE_MAX)` is refused. -/
+theorem C14_past_the_end_refused (v : View α) (slots : List (Option α)) (hv : v.Meets slots) (hs : v.size ≤ sizeMax) :
+    v.deref v.end_ = .error .logic ∧ v.deref (View.pred v.begin_) = .error .logic ∧
+      v.deref (v.position sizeMax) = .error .logic := by
+  have key : ∀ i, v.size ≤ i → v.get i = .error .logic := fun i hi =>
+    (failed_iff_error _).mp ((C14_get_refused_iff v slots hv i).mpr (Or.inl hi))
+  refine ⟨key _ (Nat.le_refl _), ?_, key _ hs⟩
+  have : View.pred v.begin_ = sizeMax := by simp [View.pred, View.begin_]
+  show v.get (View.pred v.begin_) = _
+  rw [this]; exact key _ hs
+
+/-! ### A.2 every implementation, for every slot list / member list, is of that form -/
+
+/-- `ref_sequence<T>` in ANY state of its `std::vector<const void*>` (every pattern of filled and null slots). -/
+theorem C14_ref_sequence_view (s : RefSeq α) : s.view.Meets s.slots := RefSeq.meets s
+
+/-- How the slot list of a `ref_sequence` evolves: the sizing constructor makes `n` unfilled slots, `push_back(&x)` appends
+    a filled one, `push_back(nullptr)` an unfilled one, `resize(n)` truncates or appends unfilled ones.  Hence every slot
+    list is reachable, and after any such history `C14_ref_sequence_view` applies. -/
+theorem C14_ref_sequence_ops (s : RefSeq α) (x : α) (n : Nat) :
+    (RefSeq.presized n : RefSeq α).slots = List.replicate n none ∧ (s.pushBack x).slots = s.slots ++ [some x] ∧
+      s.pushNull.slots = s.slots ++ [none] ∧
+      (s.resize n).slots = (s.slots ++ List.replicate (n - s.slots.length) none).take n := by
+  refine ⟨rfl, rfl, rfl, ?_⟩
+  unfold RefSeq.resize
+  by_cases h : n ≤ s.slots.length
+  · have : n - s.slots.length = 0 := by omega
+    simp [h, this]
+  · simp only [h, if_false]
+    rw [List.take_of_length_le]; simp; omega
+
+theorem C14_ref_sequence_reachable (slots : List (Option α)) :
+    slots.foldl (fun (s : RefSeq α) o => match o with | some x => s.pushBack x | none => s.pushNull) {} = ⟨slots⟩ := by
+  suffices h : ∀ s : RefSeq α,
+      slots.foldl (fun (s : RefSeq α) o => match o with | some x => s.pushBack x | none => s.pushNull) s = ⟨s.slots ++ slots⟩ by
+    simpa using h {}
+  induction slots with
+  | nil => intro s; simp
+  | cons o rest ih =>
+    intro s
+    rw [List.foldl_cons, ih]
+    cases o <;> simp [RefSeq.pushBack, RefSeq.pushNull]
+
+/-- `decl_sequence` is a `ref_sequence<ipr::Decl>`. -/
+theorem C14_decl_sequence_view (s : DeclSeq α) : s.view.Meets s.slots := RefSeq.meets s
+
+/-- `Warehouse<T> w(n)` followed by any `push_back`s: `n` unfilled slots (repaired defect F7: they are refused, not
+    dereferenced), then the pushed items in order. -/
+theorem C14_warehouse_view (n : Nat) (xs : List α) :
+    (Warehouse.build n xs).view.Meets (List.replicate n none ++ xs.map some) := Warehouse.meets n xs
+
+/-- `obj_sequence<T>` (`std::deque`) in any state, and the state reached by any list of `push_back`s. -/
+theorem C14_obj_sequence_view (s : ObjSeq α) (xs : List α) :
+    s.view.Meets (s.items.map some) ∧ (xs.foldl ObjSeq.pushBack ({} : ObjSeq α)).view.Meets (xs.map some) := by
+  refine ⟨ObjSeq.meets s, ?_⟩
+  have := ObjSeq.meets (xs.foldl ObjSeq.pushBack ({} : ObjSeq α))
+  rwa [ObjSeq.items_of_pushes] at this
+
+/-- `obj_list<T>` (`std::forward_list` + `mark`) in any state, and the state reached by any list of `push_back`s. -/
+theorem C14_obj_list_view (s : ObjList α) (xs : List α) :
+    s.view.Meets (s.items.map some) ∧ (xs.foldl ObjList.pushBack ({} : ObjList α)).view.Meets (xs.map some) := by
+  refine ⟨ObjList.meets s, ?_⟩
+  have := ObjList.meets (xs.foldl ObjList.pushBack ({} : ObjList α))
+  rwa [ObjList.items_of_pushes] at this
+
+/-- `empty_sequence<T>`: no slot; every `get` is refused. -/
+theorem C14_empty_sequence_view : (emptySeq α).Meets [] := emptySeq_meets
+
+/-- `singleton_obj<T>` / `singleton_ref<T>`: one filled slot. -/
+theorem C14_singleton_obj_view (s : SingletonObj α) : s.view.Meets [some s.item] := SingletonObj.meets s
+theorem C14_singleton_ref_view (s : SingletonRef α) : s.view.Meets [some s.datum] := SingletonRef.meets s
+
+/-- `typed_sequence<Seq>` over any member sequence: slot `i` holds the type of member `i`; it is unfilled when the member
+    slot is, *or when the member's own `type()` raises* (an expression whose typing was never set) — the one further
+    cause of refusal within bounds, and it is a refusal, not a null dereference. -/
+theorem C14_typed_sequence_view (t : TypedSeq α τ) (slots : List (Option α)) (h : t.seq.Meets slots) :
+    t.view.Meets (slots.map (typedSlot t.typeOf)) := TypedSeq.meets t slots h
+
+/-- `homogeneous_scope<Member, Seq>`: as a `Sequence<Decl>` / `Sequence<Expr>` it is its member sequence, its `type()` is the
+    typed sequence over it, of the same size. -/
+theorem C14_homogeneous_scope_view (h : HomScope α τ) (slots : List (Option α)) (hm : h.decls.seq.Meets slots) :
+    h.view.Meets slots ∧ h.type.Meets (slots.map (typedSlot h.decls.typeOf)) ∧ h.type.size = h.view.size :=
+  ⟨(HomScope.meets h slots hm).1, (HomScope.meets h slots hm).2, rfl⟩
+
+/-- `Optional<T>::get()` / `util::ref<T>::get()` / `util::check`: refused iff empty, else the object held. -/
+theorem C14_optional_get (o : Option α) :
+    (failed (optionalGet o) = true ↔ o = none) ∧ ∀ x, o = some x → optionalGet o = .ok x :=
+  ⟨optionalGet_failed_iff o, fun x h => by rw [h]; rfl⟩
+
+/-! ### A.3 non-vacuity -/
+
+/-- a pre-sized `ref_sequence(2)`, then `push_back(&a)`, `push_back(nullptr)`, `push_back(&b)`, `resize(6)` -/
+example : (((((RefSeq.presized 2 : RefSeq Nat).pushBack 10).pushNull).pushBack 11).resize 6).slots
+    = [none, none, some 10, none, some 11, none] := by decide
+example : (((((RefSeq.presized 2 : RefSeq Nat).pushBack 10).pushNull).pushBack 11).resize 6).view.forward
+    = [.error .logic, .error .logic, .ok 10, .error .logic, .ok 11, .error .logic] := by rw [View.forward_eq]; rfl
+example : (Warehouse.build 1 [7, 8]).view.backward = [.ok 8, .ok 7, .error .logic] := rfl
+example : (Warehouse.build 1 [7, 8]).view.Meets [none, some 7, some 8] := C14_warehouse_view 1 [7, 8]
+/-- a typed sequence over [e0 typed, e1 untyped, unfilled slot] -/
+example : (TypedSeq.mk ((RefSeq.mk [some 0, some 1, none]).view) (fun k => if k = 1 then .error .logic else .ok (100 + k))).view.forward
+    = [.ok 100, .error .logic, .error .logic] := by rw [View.forward_eq]; rfl
+example : ((emptySeq Nat).forward = []) ∧ (emptySeq Nat).empty = true := ⟨by rw [View.forward_eq]; rfl, rfl⟩
+
+end Ipr.Seq
+
 namespace Ipr.Outcome
-theorem C14_placeholder_partial : True := trivial
+open Ipr.Seq (LogicError Res failed)
+
+/-! ## Part B — accessor outcomes over every history of link assignments
+
+`σ₀ = State.initial n` is the node as its factory returns it (`n` links, all unset); a history `h` is any list of client
+assignments `link l := (code, target)`; `σ₀.run h` is the node after them. -/
+
+/-- Every answer is a value or a logic error.  This is true *by typing* (`Res Val = Except LogicError Val` and `LogicError`
+    has one constructor) and says nothing about the C++ beyond the shape of the model: that the real accessors raise
+    nothing else and do nothing undefined is what the sweep under the sanitizers observes. -/
+theorem C14_outcome_total (sem : Sem) (σ : State) : (∃ v, sem.eval σ = .ok v) ∨ sem.eval σ = .error .logic := by
+  cases h : sem.eval σ with
+  | ok v => exact Or.inl ⟨v, rfl⟩
+  | error e => cases e; exact Or.inr rfl
+
+/-- Master closed form.  After ANY history from the factory's state, an accessor that reads link `l` answers with the
+    outcome its row gives for the code LAST assigned to `l` (code 0 if `l` was never assigned), about the target LAST
+    assigned to `l`. -/
+theorem C14_eval_history (n l : Nat) (outs : List Out) (h : History) (hl : l < n) :
+    (Sem.on l outs).eval ((State.initial n).run h)
+      = (outs.getD ((lastAssign h l).getD {}).code .err).eval ((lastAssign h l).getD {}).target := by
+  have : ((State.initial n).run h).link l = (lastAssign h l).getD {} := by
+    rw [State.link_run, State.length_initial, if_pos hl, State.link_initial]
+  simp only [Sem.eval, this]
+
+/-- Reading a link that was never set through a checking accessor (`util::ref<T>::get`, `Optional<T>::get`,
+    `util::check`: the row's outcome for code 0 is `err`) is a logic error — whatever else was assigned, in any order. -/
+theorem C14_unset_link_refused (n l : Nat) (outs : List Out) (h : History) (hc : outs.head? = some .err)
+    (hfree : ∀ a ∈ h, a.1 ≠ l) : (Sem.on l outs).eval ((State.initial n).run h) = .error .logic := by
+  have h0 : ((State.initial n).run h).link l = {} := by
+    rw [State.link_run, (lastAssign_none_iff h l).mpr hfree, State.link_initial]; simp
+  cases outs with
+  | nil => simp [Sem.eval, h0, Out.eval]
+  | cons o rest =>
+    have : o = .err := by simpa using hc
+    subst this
+    simp [Sem.eval, h0, Out.eval]
+
+/-- The four checking forms found in the code all refuse a never-set link. -/
+theorem C14_unset_forms_refused (n arity l : Nat) (sub : String) (h : History) (hfree : ∀ a ∈ h, a.1 ≠ l) :
+    (ref arity l).eval ((State.initial n).run h) = .error .logic ∧
+    (part arity l sub).eval ((State.initial n).run h) = .error .logic ∧
+    (deep l sub).eval ((State.initial n).run h) = .error .logic :=
+  ⟨C14_unset_link_refused n l _ h rfl hfree, C14_unset_link_refused n l _ h rfl hfree,
+   C14_unset_link_refused n l _ h rfl hfree⟩
+
+/-- Reading a set link returns the node LAST assigned: if the history is `h₁`, then `l := v`, then assignments to other
+    links only, and the row answers code `v.code` with (the part `sub` of) the target, the answer is `v.target`'s. -/
+theorem C14_set_link_returns_last (n l : Nat) (outs : List Out) (h₁ h₂ : History) (v : LinkVal) (sub : String)
+    (hl : l < n) (hfree : ∀ a ∈ h₂, a.1 ≠ l) (ho : outs[v.code]? = some (.tgt sub)) :
+    (Sem.on l outs).eval ((State.initial n).run (h₁ ++ (l, v) :: h₂)) = .ok (.node v.target sub) := by
+  rw [C14_eval_history n l outs _ hl, lastAssign_decomp h₁ h₂ l v hfree]
+  simp [List.getD_eq_getElem?_getD, ho, Out.eval]
+
+/-- `util::ref` / `Optional::get` accessor (`ref arity l`), complete description over all histories: refused while the link
+    was never assigned, else the node of the last assignment. -/
+theorem C14_ref_accessor (n arity l : Nat) (h : History) (hl : l < n)
+    (hv : ∀ a ∈ h, a.1 = l → 1 ≤ a.2.code ∧ a.2.code < arity) :
+    (ref arity l).eval ((State.initial n).run h) =
+      match lastAssign h l with
+      | none => .error .logic
+      | some v => .ok (.node v.target "") := by
+  rw [ref, C14_eval_history n l _ h hl]
+  cases hs : lastAssign h l with
+  | none => simp [Out.eval]
+  | some v =>
+    obtain ⟨h₁, h₂, rfl, _⟩ := lastAssign_some_decomp h l v hs
+    have hc : 1 ≤ v.code ∧ v.code < arity := hv (l, v) (by simp) rfl
+    simp only [Option.getD_some]
+    have : (Out.err :: List.replicate (arity - 1) (Out.tgt ""))[v.code]? = some (.tgt "") := by
+      obtain ⟨c, hc'⟩ : ∃ c, v.code = c + 1 := ⟨v.code - 1, by omega⟩
+      rw [hc', List.getElem?_cons_succ, List.getElem?_replicate]
+      simp; omega
+    simp [List.getD_eq_getElem?_getD, this, Out.eval]
+
+/-- An accessor that hands out the `Optional<T>` member itself (`opt arity l`) never raises: empty while the link was
+    never assigned, else the node of the last assignment. -/
+theorem C14_opt_accessor (n arity l : Nat) (h : History) (hl : l < n)
+    (hv : ∀ a ∈ h, a.1 = l → 1 ≤ a.2.code ∧ a.2.code < arity) :
+    (opt arity l).eval ((State.initial n).run h) =
+      match lastAssign h l with
+      | none => .ok .absent
+      | some v => .ok (.node v.target "") := by
+  rw [opt, C14_eval_history n l _ h hl]
+  cases hs : lastAssign h l with
+  | none => simp [Out.eval]
+  | some v =>
+    obtain ⟨h₁, h₂, rfl, _⟩ := lastAssign_some_decomp h l v hs
+    have hc : 1 ≤ v.code ∧ v.code < arity := hv (l, v) (by simp) rfl
+    simp only [Option.getD_some]
+    have : (Out.absent :: List.replicate (arity - 1) (Out.tgt ""))[v.code]? = some (.tgt "") := by
+      obtain ⟨c, hc'⟩ : ∃ c, v.code = c + 1 := ⟨v.code - 1, by omega⟩
+      rw [hc', List.getElem?_cons_succ, List.getElem?_replicate]
+      simp; omega
+    simp [List.getD_eq_getElem?_getD, this, Out.eval]
+
+/-- Whatever node any accessor hands out comes from the LAST assignment of the link it reads (no stale target). -/
+theorem C14_value_is_last_assigned (n l : Nat) (outs : List Out) (h : History) (hl : l < n) (t : Nat) (sub : String)
+    (he : (Sem.on l outs).eval ((State.initial n).run h) = .ok (.node t sub)) :
+    t = ((lastAssign h l).getD {}).target := by
+  rw [C14_eval_history n l outs h hl] at he
+  generalize outs.getD ((lastAssign h l).getD {}).code .err = o at he
+  cases o <;> simp [Out.eval] at he
+  exact he.1.symm
+
+/-- An accessor's answer depends only on the link(s) it reads (`Sem.reads`) … -/
+theorem C14_depends_only_on_reads (sem : Sem) (σ σ' : State) (h : ∀ l ∈ sem.reads, σ.link l = σ'.link l) :
+    sem.eval σ = sem.eval σ' := Sem.eval_congr sem σ σ' h
+
+/-- … so assigning a different link never changes it (frame), in any state … -/
+theorem C14_frame (sem : Sem) (σ : State) (l : Nat) (v : LinkVal) (h : l ∉ sem.reads) :
+    sem.eval (σ.assign l v) = sem.eval σ := by
+  apply Sem.eval_congr
+  intro l' hl'
+  rw [State.link_assign]
+  have : l ≠ l' := fun e => h (e ▸ hl')
+  simp [this]
+
+/-- … and over whole histories: deleting every assignment to links the accessor does not read changes nothing. -/
+theorem C14_frame_history (sem : Sem) (σ : State) (h : History) :
+    sem.eval (σ.run h) = sem.eval (σ.run (h.filter (fun a => sem.reads.contains a.1))) := by
+  apply Sem.eval_congr
+  intro l hl
+  rw [State.link_run, State.link_run, lastAssign_filter h (fun l => sem.reads.contains l) l (by simpa using hl)]
+
+/-- An accessor that reads no link (`const`: operands and data fixed by the factory; `fails`: `Base_type::initializer`,
+    `enclosing()` of the global region) answers the same in every state. -/
+theorem C14_no_link_state_independent (sem : Sem) (hr : sem.reads = []) (σ σ' : State) : sem.eval σ = sem.eval σ' :=
+  Sem.eval_congr sem σ σ' (by simp [hr])
+
+/-! ## Part C — the table `kinds`
+
+### C.1 hygiene, by kernel evaluation over the whole table (finite facts about the 224 hand-written kinds and their rows) -/
+
+/-- Every kind: each row reads a declared link and lists one outcome per state code of it; accessor names and link names
+    are unambiguous; every link has at least the two states unset / set. -/
+theorem C14_table_wellformed : kinds.all KindSpec.wellFormed = true := by decide +kernel
+
+/-- Every link of every kind is read by some accessor row (else the sweep could not see it). -/
+theorem C14_table_every_link_read : kinds.all KindSpec.everyLinkRead = true := by decide +kernel
+
+/-- Kind names are unique (the driver's `findKind` is a function of the name). -/
+theorem C14_table_names_unique : (kinds.map (·.name)).Nodup := by decide +kernel
+
+/-- The table uses no literal outcome, so the printed token determines the outcome class (see `C14_render_faithful`). -/
+theorem C14_table_no_literal : kinds.all (fun k => k.rows.all (fun r => r.2.noLit)) = true := by decide +kernel
+
+/-! ### C.2 lifted to every kind, every accessor row, every history -/
+
+/-- The driver's lookup finds every kind of the table by its name. -/
+theorem C14_findKind_complete (k : KindSpec) (hk : k ∈ kinds) : findKind k.name = some k := by
+  unfold findKind
+  have hn := C14_table_names_unique
+  generalize kinds = ks at hk hn
+  induction ks with
+  | nil => cases hk
+  | cons a t ih =>
+    rw [List.map_cons, List.nodup_cons] at hn
+    rw [List.find?_cons]
+    by_cases e : a.name = k.name
+    · rcases List.mem_cons.mp hk with hk | hk
+      · subst hk; simp
+      · exact absurd (List.mem_map.mpr ⟨k, hk, rfl⟩) (e ▸ hn.1)
+    · have : (a.name == k.name) = false := by simpa using e
+      rw [this]
+      rcases List.mem_cons.mp hk with hk | hk
+      · exact absurd (hk ▸ rfl) e
+      · exact ih hk hn.2
+
+/-- Every link is read: for every kind and every link of it there is an accessor row that reads it. -/
+theorem C14_every_link_read (k : KindSpec) (hk : k ∈ kinds) (l : Nat) (hl : l < k.links.length) :
+    ∃ r ∈ k.rows, l ∈ r.2.reads := by
+  have := List.all_eq_true.mp C14_table_every_link_read k hk
+  simp only [KindSpec.everyLinkRead, List.all_eq_true, List.mem_range, List.any_eq_true, List.contains_iff_mem] at this
+  exact this l hl
+
+/-- For every kind of the table, every accessor row and every client history, the link read is in a state the row has an
+    explicit outcome for: the answer is never the model's fall-back refusal, it is the listed outcome for the code last
+    assigned, about the target last assigned. -/
+theorem C14_table_outcome_explicit (k : KindSpec) (hk : k ∈ kinds) (acc : String) (l : Nat) (outs : List Out)
+    (hr : (acc, Sem.on l outs) ∈ k.rows) (h : History) (hv : ValidHistory k h) :
+    ∃ o, o ∈ outs ∧ outs[((lastAssign h l).getD {}).code]? = some o ∧
+      (Sem.on l outs).eval ((State.initial k.links.length).run h) = o.eval ((lastAssign h l).getD {}).target := by
+  obtain ⟨ls, hls, hlen, h2⟩ := wellFormed_row (List.all_eq_true.mp C14_table_wellformed k hk) hr
+  have hl : l < k.links.length := (List.getElem?_eq_some_iff.mp hls).1
+  have hcode : ((lastAssign h l).getD {}).code < outs.length := by
+    cases hs : lastAssign h l with
+    | none => show (0 : Nat) < _; omega
+    | some v =>
+      obtain ⟨h₁, h₂, rfl, _⟩ := lastAssign_some_decomp h l v hs
+      have hc := hv (l, v) (by simp)
+      simpa [hls, hlen] using hc
+  refine ⟨outs[((lastAssign h l).getD {}).code], List.getElem_mem _, List.getElem?_eq_getElem hcode, ?_⟩
+  rw [C14_eval_history _ l outs h hl, List.getD_eq_getElem?_getD, List.getElem?_eq_getElem hcode]; rfl
+
+/-- Accessors whose row lists no refusal (the `Optional`-returning ones, `Fundecl::mapping`, `Instantiation::instance` …)
+    never raise, for every kind, every client history. -/
+theorem C14_table_opt_never_raises (k : KindSpec) (hk : k ∈ kinds) (acc : String) (l : Nat) (outs : List Out)
+    (hr : (acc, Sem.on l outs) ∈ k.rows) (hne : Out.err ∉ outs) (h : History) (hv : ValidHistory k h) :
+    ∃ v, (Sem.on l outs).eval ((State.initial k.links.length).run h) = .ok v := by
+  obtain ⟨o, ho, _, he⟩ := C14_table_outcome_explicit k hk acc l outs hr h hv
+  rw [he]
+  cases o with
+  | err => exact absurd ho hne
+  | absent => exact ⟨_, rfl⟩
+  | tgt sub => exact ⟨_, rfl⟩
+  | lit s => exact ⟨_, rfl⟩
+
+/-- Checking accessors of the table (outcome `err` for code 0) refuse while their link is unset, for every kind and every
+    history that does not assign it — and, by `C14_table_outcome_explicit`, answer from the last assignment once it is. -/
+theorem C14_table_unset_refused (k : KindSpec) (_ : k ∈ kinds) (acc : String) (l : Nat) (outs : List Out)
+    (_ : (acc, Sem.on l outs) ∈ k.rows) (hc : outs.head? = some .err) (h : History) (hfree : ∀ a ∈ h, a.1 ≠ l) :
+    (Sem.on l outs).eval ((State.initial k.links.length).run h) = .error .logic :=
+  C14_unset_link_refused _ l outs h hc hfree
+
+/-! ### C.3 what the driver prints determines the outcome class -/
+
+/-- For a row without literal outcomes (every row of the table, `C14_table_no_literal`) the printed token is `!L` exactly
+    for a refusal, `-` exactly for an empty Optional, `*` exactly for a link-independent value. -/
+theorem C14_render_faithful (k : KindSpec) (sem : Sem) (σ : State) (hn : sem.noLit = true) :
+    (sem.render k σ = "!L" ↔ sem.eval σ = .error .logic) ∧ (sem.render k σ = "-" ↔ sem.eval σ = .ok .absent) ∧
+      (sem.render k σ = "*" ↔ sem.eval σ = .ok .any) := by
+  unfold Sem.render
+  cases sem with
+  | const => simp [Sem.eval, renderRes, Val.render]
+  | fails => simp [Sem.eval, renderRes]
+  | on l outs =>
+    simp only [Sem.noLit, List.all_eq_true] at hn
+    simp only [Sem.eval]
+    generalize hσ : σ.link l = lv
+    have hmem : outs.getD lv.code .err = .err ∨ outs.getD lv.code .err ∈ outs := by
+      rw [List.getD_eq_getElem?_getD]
+      cases ho : outs[lv.code]? with
+      | none => exact Or.inl rfl
+      | some o => exact Or.inr (List.mem_of_getElem? ho)
+    generalize outs.getD lv.code .err = o at hmem
+    cases o with
+    | err => simp [Out.eval, renderRes]
+    | absent => simp [Out.eval, renderRes, Val.render]
+    | tgt sub =>
+      have d := dollar_ne ((Sem.linkName k (Sem.on l outs)) ++ sub)
+      rw [← String.append_assoc] at d
+      simp [Out.eval, renderRes, Val.render, d.1, d.2.1, d.2.2]
+    | lit s =>
+      rcases hmem with hmem | hmem
+      · cases hmem
+      · exact absurd (hn _ hmem) (by simp)
+
+/-! ### C.4 non-vacuity: concrete kinds, concrete histories -/
+
+/-- `Var`: links `init lexreg home langlinkage def`. -/
+def varKind : KindSpec := (findKind "Var").getD ⟨"", [], []⟩
+/-- `For`: links `init cond inc stmt(3 states)`. -/
+def forKind : KindSpec := (findKind "For").getD ⟨"", [], []⟩
+
+example : kinds.length = 224 := by decide +kernel
+example : varKind ∈ kinds ∧ forKind ∈ kinds := by decide +kernel
+example : varKind.links.map (·.name) = ["init", "lexreg", "home", "langlinkage", "def"] := by decide +kernel
+
+/-- a client history on a Var: home := n1, init := n2, home := n3 (re-assigned), def := n4 -/
+def varHist : History := [(2, ⟨1, 1⟩), (0, ⟨1, 2⟩), (2, ⟨1, 3⟩), (4, ⟨1, 4⟩)]
+
+example : ValidHistory varKind varHist := by unfold ValidHistory; decide +kernel
+
+/-- after it: `home_region` is the LAST target (n3), `initializer` n2, `lexical_region` (never set) and `linkage` refuse,
+    `definition` n4 -/
+example : (varKind.rows.map (fun r => (r.1, r.2.eval ((State.initial 5).run varHist)))).take 5 =
+    [("linkage", .error .logic), ("home_region", .ok (.node 3 "")), ("lexical_region", .error .logic),
+     ("initializer", .ok (.node 2 "")), ("definition", .ok (.node 4 ""))] := by decide +kernel
+
+/-- the node as the factory returns it -/
+example : (varKind.rows.map (fun r => (r.1, r.2.eval (State.initial 5)))).take 5 =
+    [("linkage", .error .logic), ("home_region", .error .logic), ("lexical_region", .error .logic),
+     ("initializer", .ok .absent), ("definition", .ok .absent)] := by decide +kernel
+
+/-- `For`: body set to a statement whose own type was never set (code 1), then to a complete one (code 2) -/
+example : (forKind.rows.map (fun r => (r.1, r.2.eval ((State.initial 4).run [(3, ⟨1, 8⟩)])))).take 5 =
+    [("initializer", .error .logic), ("condition", .error .logic), ("increment", .error .logic),
+     ("body", .ok (.node 8 "")), ("type", .error .logic)] := by decide +kernel
+example : (forKind.rows.map (fun r => (r.1, r.2.eval ((State.initial 4).run [(3, ⟨1, 8⟩), (1, ⟨1, 5⟩), (3, ⟨2, 9⟩)])))).take 5 =
+    [("initializer", .error .logic), ("condition", .ok (.node 5 "")), ("increment", .error .logic),
+     ("body", .ok (.node 9 "")), ("type", .ok (.node 9 ".type"))] := by decide +kernel
+
+example : lastAssign varHist 2 = some ⟨1, 3⟩ ∧ lastAssign varHist 1 = none := by decide
+
 end Ipr.Outcome
